@@ -284,6 +284,13 @@ def ejson_agreement(ctx):
 def check(ctx):
     run, repo, res = ctx.run, ctx.repo, ctx.res
     enc, dec, d, h, et, dt = ejson_agreement(ctx)
+    # what a resumed run reads back is what was written: a row is written before it is handed on, so what later steps do to the row
+    # object in place (and would do again on resume) is not frozen into the checkpoint (shared clause with C05)
+    from rules import commits as _cm, observers as _ob
+    run.rule('R12', 'ROW-LOOP-SHAPE(stream writer): every row is written once, as it arrives, before it is yielded')
+    roles_ = _cm.stream_roles(ctx)
+    lp_, var_, _x = _ob.single_row_loop(ctx, roles_['rows'])
+    _ob.transparent_loop(ctx, 'R12', roles_['rows'], lp_, var_, effects=roles_['write_names'], what='stream writer')
 
     run.rule('R24', 'TD-SECONDS: the UTC offset of a datetime is converted to seconds with total_seconds(); timedelta.seconds is '
                     'in [0, 86400) and drops the day component, so negative offsets (days=-1) come back 24h off')
